@@ -124,6 +124,7 @@ func specPlain4(p *packets.FrameParser) bool {
 // sink are all closed again on every path; handles open before the call are untouched; an error comes without a result;
 // C20: the SYN entry point never dials a TCP connection.
 //@ func (*TCPv4).Traceroute
+//@ ensures[ghost.mono]  sendN >= old(sendN)
 //@ safety C10
 //@ requires[pre.nonnil]       t != nil && sendN >= 0
 //@ ensures[C10.entry.atom]    ret1 != nil ==> ret0 == nil
